@@ -86,7 +86,10 @@ PROPS = {
              'reorder_to_pairs, which rest on it. Proved (small): the helpers _low_high and _swap_cofactor return what the node table '
              'stores, and the argument validation of swap (a prefix contract: ValueError with nothing modified iff the arguments are '
              'not two adjacent levels / declared names at adjacent levels; otherwise the body is entered with x < y = x + 1). The '
-             'property itself is decided by run-time contracts: every function of 3 variables and sampled sets over 4-6 variables under '
+             'property itself is stated as observed contracts of swap and reorder in the language of the model (every externally referenced '
+             'node survives with its number, its external count and its function of the variables - ghost sem2 under the assignment '
+             're-indexed by the new order -, the order is exchanged / as requested / not larger after sifting, WF holds) which z3 evaluates on '
+             'real executions (vlib/vc/contracts_reorder.py, cross-check), and is decided by run-time contracts: every function of 3 variables and sampled sets over 4-6 variables under '
              'every adjacent swap, sifting, reorder-to-order, reorder_to_pairs, reordering off and on, 8 hash seeds (thorough).',
              bounded=['vlib.rtc.c07'], tb=['swap body, reorder, _sort_to_order, _reorder_var, reorder_to_pairs: bounded only'],
              design_ref='DESIGN.md 7/C07'),
